@@ -1387,6 +1387,20 @@ func main() {
 	fmt.Printf("Gen/ValueTable.lean: %d import rows, %d export rows, %d unknown in [%s]\n", vt.nImport, vt.nExport, vt.nU, strings.Join(vt.where, " "))
 	// END value table
 
+	// BEGIN flow table
+	ft := flowTableOf(jp)
+	writeIfChanged(filepath.Join(*out, "FlowTable.lean"), ft.text)
+	fmt.Printf("Gen/FlowTable.lean: %d builders, %d unknown in [%s]\n", ft.nB, ft.nU, strings.Join(ft.where, " "))
+	if os.Getenv("FLOWDEBUG") != "" {
+		fmt.Print(flowDump(jp))
+	}
+	// END flow table
+	// BEGIN row facts
+	rf := rowFactsOf(jp)
+	writeIfChanged(filepath.Join(*out, "RowFacts.lean"), rf.text)
+	fmt.Printf("Gen/RowFacts.lean: %d functions of row.go, %d unknown in [%s]\n", rf.nFuncs, rf.nU, strings.Join(rf.where, " "))
+	// END row facts
+
 	if mp, err := loadPkg(filepath.Join(*repo, "cmd/jl"), "github.com/cgi-fr/jsonline/cmd/jl"); err == nil {
 		fr, tr := registries(mp)
 		var rb strings.Builder
